@@ -138,6 +138,13 @@ VARIANTS = [
     V( 'duration-hours-from-days', TIMES, "hours = d_secs // cls.HR", "hours			= w_secs // cls.HR", fires=[ 'T-DURATION' ] ),
     V( 'record-split-once', HFILES, "dt,sn,js = l.split( '\\t', 2 )", "dt,sn,js			= l.split( '\\t' )", fires=[ 'T-RECORD' ] ),
     V( 'record-no-newline', HFILES, "json.dumps( data ))) + '\\n',", "json.dumps( data ))),", fires=[ 'T-RECORD' ] ),
+    # ---- C17 render / parse (T-RENDER)
+    V( 'render-fraction-from-unrounded', TIMES, "result += ( '%.*f' % ( subsecond, value ))[-subsecond-1:]", "result	       += ( '%.*f' % ( subsecond, self.value ))[-subsecond-1:]", fires=[ 'T-RENDER' ] ),
+    V( 'render-seconds-from-unrounded', TIMES, "dt = self.datetime_from_number( value, tzinfo=tzinfo )", "dt			= self.datetime_from_number( self.value, tzinfo=tzinfo )", fires=[ 'T-RENDER' ] ),
+    V( 'render-truncates', TIMES, "value = round( self.value, subsecond ) if subsecond else self.value", "value			= self.value", fires=[ 'T-RENDER' ] ),
+    V( 'render-fraction-slice-short', TIMES, "( subsecond, value ))[-subsecond-1:]", "( subsecond, value ))[-subsecond:]", fires=[ 'T-RENDER' ] ),
+    V( 'parse-fraction-left-pad', TIMES, "terms[6] += '0' * ( 6 - len( terms[6] ))", "terms[6]	= terms[6].zfill( 6 )", fires=[ 'T-RENDER' ] ),
+    V( 'number-floor-division', TIMES, "return calendar.timegm( dt.utctimetuple() ) + dt.microsecond / 1000000", "return calendar.timegm( dt.utctimetuple() ) + dt.microsecond // 1000000", fires=[ 'T-RENDER' ] ),
     # ---- C11 regex translation structure (X-*)
     V( 'regex-wildcard-before-exact', AUTO, "enc = self.encode( inp )\n try:\n return super( state, self ).__getitem__( enc )\n except KeyError:\n pass", "enc			= self.encode( inp )\n        if enc is not self.NON:\n            try:\n                return super( state, self ).__getitem__( self.ANY )\n            except KeyError:\n                pass\n        try:\n            return super( state, self ).__getitem__( enc )\n        except KeyError:\n            pass", fires=[ 'X-LOOKUP' ] ),
     V( 'regex-wildcard-without-input', AUTO, "if enc is not self.NON: # Only apply recognizers (and ANY wildcard transition) when input is present", "if True:", fires=[ 'X-LOOKUP' ] ),
